@@ -2235,15 +2235,46 @@ def rule_saved(repo):
     flags = sorted({_dsl_attr(t)[1] for st in ast.walk(l2[2]) if isinstance(st, ast.Assign) and isinstance(st.value, ast.Constant)
                     and st.value.value is True for t in st.targets if _dsl_attr(t)})
     wr_params = [p for p in consume if consume[p] == ('map', 'upblk_writes')]
+    # the registry that says "this block is an update_ff block": the keyword `update_ff = blk in s._dsl.<R>` of the extraction
+    regs = sorted({_dsl_attr(k.value.comparators[0])[1] for n in ast.walk(l2[2]) if isinstance(n, ast.Call) for k in n.keywords
+                   if isinstance(k.value, ast.Compare) and len(k.value.ops) == 1 and isinstance(k.value.ops[0], ast.In)
+                   and _dsl_attr(k.value.comparators[0])})
+    if len(regs) != 1:
+        raise AnalysisError(f"cannot tell which registry marks update_ff blocks in _elaborate_read_write_func ({regs})")
+    REG = regs[0]
+    decl0 = _declared(repo)
+    whole_design_reg = any(e.agg == 'all_' + REG and e.kind == 'union' and e.key is None and e.val == ('field', REG)
+                           for fm, fc, f in _defs(repo, '_collect_vars') for e in LevelFn(repo, fm, fc, f, decl0, True).effects)
     for flag in flags:
         for p in wr_params:
             lp = cons_loop[p]
-            sets_flag = [st for st in walk_no_nested(lp) if isinstance(st, ast.Assign) and isinstance(st.value, ast.Constant)
-                         and st.value.value is True and any((_dsl_attr(t) or ('', ''))[1] == flag for t in st.targets)
-                         and any('update_ff' in norm(g.test) and g.polarity for g in guards_of(st, stop=lp) if g.kind == 'if')]
+            kvar = norm(lp.target.elts[0])
+            host = cons_host.get(p)
+            sets_flag, wrong = [], []
+            for st in walk_no_nested(lp):
+                if not (isinstance(st, ast.Assign) and isinstance(st.value, ast.Constant) and st.value.value is True
+                        and any((_dsl_attr(t) or ('', ''))[1] == flag for t in st.targets)):
+                    continue
+                conds = [(g.test, g.polarity) for g in guards_of(st, stop=lp) if g.kind in ('if', 'exit')]
+                for S in _selected_sets(conds, kvar):
+                    da = _dsl_attr(_expand(S, st))
+                    if not da:
+                        continue
+                    tops = [norm(v) for k, s3, v, _ in _bindings(addf, da[0]) if k == 'assign']
+                    is_top = da[0] == aps[0] or (tops and all(t.endswith('._dsl.elaborate_top') for t in tops))
+                    if (da[1] == REG and da[0] == host) or (da[1] == 'all_' + REG and is_top and whole_design_reg):
+                        sets_flag.append(st)
+                    else:
+                        wrong.append((st, norm(S)))
             cons = f"{flag} restored for signals written by an update_ff block ({p})"
             if sets_flag:
                 r.ok(m, ADD_QUAL, cons)
+            elif wrong:
+                r.bad(m, ADD_QUAL, f"{flag} restored under a test on the wrong block registry",
+                      f"`{kvar} in {wrong[0][1]}` does not hold for every update_ff block of `{host}`, whose write table is restored "
+                      f"here: only {host}._dsl.{REG} (or the whole-design all_{REG}) contains those blocks; with a parent that is not "
+                      f"the top the written port of the replacement gets no {flag} and the register keeps its reset value",
+                      wrong[0][0].lineno)
             else:
                 r.bad(m, ADD_QUAL, f"{flag} not restored with the saved update_ff writes",
                       f"{l2[1].name}._elaborate_read_write_func sets <signal>._dsl.{flag} = True on every signal an update_ff block "
@@ -3172,6 +3203,8 @@ MUTANTS = [
 """, "", 'R-C15-keys'),
     _m('R4f-loopback-first-end-not-evaluated', COMP, "connection_pairs.append( eval(x) if isinstance( x, str ) else x )",
        "connection_pairs.append( x )", 'R-C15-saved'),
+    _m('seed-double-buffer-tested-against-tops-own-blocks', COMP, "      if blk in parent._dsl.update_ff:\n        written._dsl.needs_double_buffer = True",
+       "      if blk in top._dsl.update_ff:\n        written._dsl.needs_double_buffer = True", 'R-C15-saved'),
     _m('R4b-writes-restored-into-reads', COMP, "      parent._dsl.upblk_writes[blk].add( written )", "      parent._dsl.upblk_reads[blk].add( written )",
        'R-C15-saved'),
     _m('R4d-purge-rebinds-instead-of-in-place', COMP, "        top._dsl.all_upblk_calls[blk] -= to_save\n",
@@ -3691,6 +3724,10 @@ EQUIV = [
              new="        from functools import reduce\n        list_parent = reduce( lambda lst, k: lst[k], my_indices[:-1], list_parent )\n", count=1),
         dict(file=COMP, old="        list_parent[ my_indices[i] ] = None", new="        list_parent[ my_indices[len(my_indices) - 1] ] = None", count=1)]),
     _m('add-walk-bound-rearranged', COMP, "      while i < len(indices) - 1:", "      while i + 1 < len(indices):"),
+    _m('double-buffer-tested-against-whole-design-registry', COMP, "      if blk in parent._dsl.update_ff:\n        written._dsl.needs_double_buffer = True",
+       "      if blk in top._dsl.all_update_ff:\n        written._dsl.needs_double_buffer = True"),
+    _m('double-buffer-test-negated-early-continue', COMP, "      if blk in parent._dsl.update_ff:\n        written._dsl.needs_double_buffer = True",
+       "      if blk not in parent._dsl.update_ff:\n        continue\n      written._dsl.needs_double_buffer = True"),
     _m('add-sets-via-update', COMP, "    top._dsl.all_signals       |= added_signals", "    top._dsl.all_signals.update( added_signals )"),
 ]
 
